@@ -276,6 +276,32 @@ def r06FirstBad (m : RM) (n : Nat) : List (EvR × List ObR) → Option Nat
 open Afkak.BrokerClientR in
 def r06 (tr : List (EvR × List ObR)) : Bool := (r06FirstBad RM.init 0 tr).isNone
 
+/-! ## Framing: every packet handed to `stringReceived` is a frame of the byte stream
+
+A trace of ONE protocol instance fed chunk by chunk — also by a transport that keeps delivering after
+`loseConnection()` (a TLS transport, a test transport): `(chunk, packets handed to stringReceived during that
+dataReceived)`.  Whatever the chunking and whatever follows an over-long prefix, every packet delivered must be one
+of the frames of the byte stream received so far, parsed from its START (`(feed [] stream).frames`) — never bytes
+read from a misaligned position.  (As written, `IntNStringReceiver` keeps the whole buffer after
+`lengthLimitExceeded`, so a transport that keeps delivering makes it re-deliver genuine frames and stop at the same
+prefix again; it never resynchronises inside the stream.) -/
+
+def framesGenuine : Bytes → List (Bytes × List Bytes) → Bool
+  | _, [] => true
+  | sofar, (c, ps) :: rest =>
+    ps.all (fun p => (feed [] (sofar ++ c)).frames.contains p) && framesGenuine (sofar ++ c) rest
+
+def framesGenuineFirstBad (sofar : Bytes) (n : Nat) : List (Bytes × List Bytes) → Option Nat
+  | [] => none
+  | (c, ps) :: rest =>
+    if ps.all (fun p => (feed [] (sofar ++ c)).frames.contains p) then framesGenuineFirstBad (sofar ++ c) (n + 1) rest
+    else some n
+
+/-- the model's own trace: `dataReceived` as written, called for every chunk (no transport stops it) -/
+def feedTrace (buf : Bytes) : List Bytes → List (Bytes × List Bytes)
+  | [] => []
+  | c :: cs => (c, (feed buf c).frames) :: feedTrace (feed buf c).buf cs
+
 /-! ## Bootstrap connection -/
 
 def bootFires : List Bootstrap.Ob → List (Nat × Bootstrap.Res)
@@ -290,13 +316,18 @@ structure BLive where
 
 structure BSt where
   live : List BLive
+  /-- the requests made on this connection whose reply has not arrived, cancelled ones INCLUDED (the late
+      reply to a cancelled request is expected, not "unknown") -/
+  awaited : List BLive
   nreq : Nat
   buf : Bytes
   reading : Bool
   lost : Bool
+  /-- the reason the connection was lost with (meaningful once `lost`) -/
+  reason : Bootstrap.Reason := .done
   deriving DecidableEq, Repr
 
-def BSt.init : BSt := { live := [], nreq := 0, buf := [], reading := true, lost := false }
+def BSt.init : BSt := { live := [], awaited := [], nreq := 0, buf := [], reading := true, lost := false, reason := .done }
 
 /-- Firings the packets `fs` must cause, and the requests still live afterwards. -/
 def bootDeliver (live : List BLive) : List Bytes → List (Nat × Bootstrap.Res) × List BLive
@@ -306,12 +337,29 @@ def bootDeliver (live : List BLive) : List Bytes → List (Nat × Bootstrap.Res)
     let r := bootDeliver (live.filter (fun l => l.cid != cid)) fs
     ((live.filter (fun l => l.cid == cid)).map (fun l => (l.serial, Bootstrap.Res.ok f)) ++ r.1, r.2)
 
+/-- the awaited requests (live or cancelled) still unanswered after the packets `fs` -/
+def bootRest (awaited : List BLive) : List Bytes → List BLive
+  | [] => awaited
+  | f :: fs => bootRest (awaited.filter (fun l => l.cid != Bootstrap.respCid f)) fs
+
+/-- Number of packets among `fs` whose id is, when the packet is handled, not that of an awaited request (one
+    made on this connection and not yet answered, cancelled or not): the packets nobody asked for. -/
+def bootDrops (awaited : List BLive) : List Bytes → Nat
+  | [] => 0
+  | f :: fs =>
+    if awaited.any (fun l => l.cid == Bootstrap.respCid f) then
+      bootDrops (awaited.filter (fun l => l.cid != Bootstrap.respCid f)) fs
+    else bootDrops awaited fs + 1
+
 def sameFires (l₁ l₂ : List (Nat × Bootstrap.Res)) : Bool := l₁.isPerm l₂
 
 /-- What C06 demands of a trace of one `KafkaBootstrapProtocol` connection: every request Deferred
     fires exactly once — `ok b` for the packet `b` completed in that step whose id bytes are the
-    request's, `cancelled` by its own cancel, `connLost` when the connection is lost — and an
-    over-long prefix drops the connection.  With `strict = true` additionally "a frame whose id is
+    request's, `cancelled` by its own cancel, `connLost r` with the very reason `r` the connection was lost with
+    (a request made after the loss fails at once with that same reason) — an
+    over-long prefix drops the connection, and the protocol itself drops the connection (`lose`) for nothing
+    else but a packet nobody asked for: a packet carrying the id of a request that was CANCELLED on this
+    connection and not yet answered is expected, and is no reason to drop it (`bootDrops`).  With `strict = true` additionally "a frame whose id is
     unknown changes the outcome of no other request": the protocol itself must not drop the
     connection (other than for an over-long prefix) while requests are still pending. -/
 def bstep (strict : Bool) (m : BSt) : Bootstrap.Ev × List Bootstrap.Ob → Option BSt
@@ -320,8 +368,9 @@ def bstep (strict : Bool) (m : BSt) : Bootstrap.Ev × List Bootstrap.Ob → Opti
     else
       let k := m.nreq
       match bootFires os with
-      | [] => if m.lost then none else some { m with nreq := k + 1, live := m.live ++ [⟨k, Bootstrap.reqCid payload⟩] }
-      | [(k', .connLost)] => if k' == k && m.lost then some { m with nreq := k + 1 } else none
+      | [] => if m.lost then none else some { m with nreq := k + 1, live := m.live ++ [⟨k, Bootstrap.reqCid payload⟩],
+                                                      awaited := m.awaited ++ [⟨k, Bootstrap.reqCid payload⟩] }
+      | [(k', .connLost r)] => if k' == k && m.lost && r == m.reason then some { m with nreq := k + 1 } else none
       | _ => none
   | (.cancel k, os) =>
     if os.contains .badOp then (if bootFires os == [] then some m else none)
@@ -337,12 +386,13 @@ def bstep (strict : Bool) (m : BSt) : Bootstrap.Ev × List Bootstrap.Ob → Opti
       else
         let drops := os.count .lose
         if f.exceeded && drops == 0 then none
+        else if drops > bootDrops m.awaited f.frames + (if f.exceeded then 1 else 0) then none
         else if strict && drops > (if f.exceeded then 1 else 0) && !d.2.isEmpty then none
-        else some { m with live := d.2, buf := f.buf, reading := drops == 0 }
-  | (.lost, os) =>
+        else some { m with live := d.2, awaited := bootRest m.awaited f.frames, buf := f.buf, reading := drops == 0 }
+  | (.lost rsn, os) =>
     if os.contains .badOp then (if bootFires os == [] then some m else none)
-    else if sameFires (bootFires os) (m.live.map fun l => (l.serial, Bootstrap.Res.connLost))
-    then some { m with live := [], lost := true, reading := false } else none
+    else if sameFires (bootFires os) (m.live.map fun l => (l.serial, Bootstrap.Res.connLost rsn))
+    then some { m with live := [], awaited := [], lost := true, reading := false, reason := rsn } else none
 
 def brun (strict : Bool) (m : BSt) : List (Bootstrap.Ev × List Bootstrap.Ob) → Option BSt
   | [] => some m
